@@ -255,7 +255,7 @@ def run_case(case, sb):
         exp_lines = [records[p] for p in model.returned]
         if res["lines"] != exp_lines:
             problems.append({"expected_lines": exp_lines, "observed_lines": res["lines"]})
-        err_lines = sorted(set(e[0] for e in res["errors"]), key=lambda v: (str(type(v)), str(v)))
+        err_lines = sorted(set(e[0] for e in res["errors"]), key=lambda v: (0, v, "") if isinstance(v, int) else (1, 0, str(v)))
         if "collect" in case["policy"] and err_lines != sorted(set(model.error_lines)):
             problems.append({"error_lines_expected": sorted(set(model.error_lines)), "observed": res["errors"]})
     fired = [w for (_, _, w) in model.fired if w in ("fail", "fail_and_stop")]
